@@ -329,9 +329,10 @@ class MidiFile:
         if self.type == 2:
             raise TypeError("can't merge tracks in type 2 (asynchronous) file")
 
-        if self._merged_track is None:
-            self._merged_track = merge_tracks(self.tracks, skip_checks=True)
-        return self._merged_track
+        # The merge is done on every access. The track list, the tracks
+        # and their messages are all mutable, so a cached merge would go
+        # stale as soon as any of them is edited.
+        return merge_tracks(self.tracks, skip_checks=True)
 
     @merged_track.deleter
     def merged_track(self):
